@@ -123,7 +123,7 @@ pub struct C05;
 fn text_bearing(k: &OpKind) -> bool {
   match k {
     OpKind::Source | OpKind::Rope | OpKind::Buffer | OpKind::Size | OpKind::ToWriter { .. } => true,
-    OpKind::CloneThen { then } => text_bearing(then),
+    OpKind::CloneThen { then } | OpKind::ChildFault { then, .. } => text_bearing(then),
     _ => false,
   }
 }
